@@ -446,6 +446,39 @@ func c12(c *Ctx) {
 			}
 			c.Check(found, "a surfaced KRB-ERROR code is one a KDC sent", "krberror-invented", "", inp)
 		}
+		// the theorems of props/C12b.v as direct oracles on the implementation
+		if !o.panicked {
+			dup := false
+			seenAt := map[[2]int]bool{}
+			for _, a := range o.attempts {
+				key := [2]int{a.kdc, int(a.tr)}
+				if seenAt[key] {
+					dup = true
+				}
+				seenAt[key] = true
+			}
+			c.Check(!dup, "no endpoint is tried twice in one exchange", "attempt-repeated", fmt.Sprint(o.attempts), inp)
+			if o.class == 0 {
+				given := false
+				for _, b := range nc.behs {
+					for tr := 0; tr < 2; tr++ {
+						if b[tr].Kind == 0 && b[tr].Arg == o.arg && (tr == 1 || nc.mode != 0) {
+							given = true
+						}
+					}
+				}
+				c.Check(given, "a reply handed to the caller is one a configured KDC gave over a permitted transport", "reply-invented", fmt.Sprintf("arg=%d", o.arg), inp)
+			}
+			if o.class == 2 {
+				tcpLive := false
+				for _, b := range nc.behs {
+					if b[1].Kind == 0 {
+						tcpLive = true
+					}
+				}
+				c.Check(!tcpLive, "a communication error is returned only if no TCP endpoint answers", "commerr-with-live-tcp", fmt.Sprintf("err=%s", o.err), inp)
+			}
+		}
 	}
 }
 
